@@ -5,8 +5,8 @@ import (
 	"encoding/json"
 	"fmt"
 	"os"
-	"sort"
 	"regexp"
+	"sort"
 	"strconv"
 	"strings"
 	"time"
@@ -109,6 +109,14 @@ func parseDump(src []byte, keepFmt bool) (string, []dyntpl.VerifNode, Obs) {
 func genInterpCase(id int, rng *RNG, prof *Profile) *interpCase {
 	g := &Gen{r: rng, p: prof, flits: map[string]float64{}, tags: map[string]bool{}, budget: 4}
 	g.genData()
+	if len(g.data.User.History) >= 256 {
+		// a large collection: a small flat template around it (nested loops over 300 elements,
+		// inside includes, cost minutes of model evaluation and add nothing)
+		small := *prof
+		small.MaxDepth, small.MaxItems, small.Includes = 1, 2, false
+		prof = &small
+		g.p = prof
+	}
 	ic := &interpCase{tags: g.tags}
 	vc := &VCase{ID: id, Data: g.data, Flits: g.flits, Reg: map[string][]dyntpl.VerifNode{}, Meta: map[string]any{}}
 	if prof.Includes {
@@ -160,8 +168,20 @@ func genInterpCase(id int, rng *RNG, prof *Profile) *interpCase {
 			vc.RegKeys = append(vc.RegKeys, key)
 			vc.Meta["inc:"+key] = src
 			v2 := g.newVar("v")
-			ic.ast = append(ic.ast, &Ast{K: "include", IncKw: "include", Names: []string{key}}, &Ast{K: "text", Text: g.marker()},
-				&Ast{K: "rloop", Var: v2, Src: "user.Finance.History", Body: []*Ast{{K: "text", Text: g.marker()}, {K: "print", Path: v2 + ".DateUnix"}}}, &Ast{K: "text", Text: g.marker()})
+			next := &Ast{K: "rloop", Var: v2, Src: "user.Finance.History", Body: []*Ast{{K: "text", Text: g.marker()}, {K: "print", Path: v2 + ".DateUnix"}}}
+			switch rng.Intn(3) {
+			case 0:
+				// the next loop has a separator: none before its first element
+				next.Sep, next.SepKw = []string{",", ";"}[rng.Intn(2)], []string{"separator", "sep"}[rng.Intn(2)]
+			case 1:
+				// the next loop has nothing to iterate over: its else branch renders
+				next.Src, next.HasElse, next.Else = "nosuch.List", true, []*Ast{{K: "text", Text: g.marker()}}
+			}
+			ic.ast = append(ic.ast, &Ast{K: "include", IncKw: "include", Names: []string{key}}, &Ast{K: "text", Text: g.marker()}, next, &Ast{K: "text", Text: g.marker()})
+			if rng.Bool() {
+				// and the same included template once more
+				ic.ast = append(ic.ast, &Ast{K: "include", IncKw: "include", Names: []string{key}}, &Ast{K: "text", Text: g.marker()})
+			}
 			g.tag("scenario:exit-in-included-range-loop")
 		}
 	}
@@ -322,6 +342,22 @@ func genInterpCase(id int, rng *RNG, prof *Profile) *interpCase {
 				g.budget = 12
 			}
 			g.tag("scenario:include-while-break-depth-pending")
+		}
+	}
+	if nh := len(g.data.User.History); prof.Includes && g.data.User.Present && g.data.User.HasFinance && nh >= 1 && nh <= 8 && rng.Chance(12) {
+		// an included template that addresses an element through the including template's loop
+		// variable: it renders as if its source stood in the loop body
+		iv := g.newVar("i")
+		fld := []string{"Comment", "Cost", "DateUnix"}[rng.Intn(3)]
+		sub := []*Ast{{K: "print", Path: iv}, {K: "text", Text: []byte("=")}, {K: "print", Path: fmt.Sprintf("user.Finance.History[%s].%s", iv, fld)}}
+		if key, ok := addSub(sub); ok {
+			host := &Ast{K: "cloop", Var: iv, Init: "0", InitLit: true, Op: "<", Lim: fmt.Sprint(nh), LimLit: true, Step: "++", Sep: "|", SepKw: "sep",
+				Body: []*Ast{{K: "include", IncKw: []string{"include", "."}[rng.Intn(2)], Names: []string{key}}}}
+			ic.ast = append(ic.ast, &Ast{K: "text", Text: []byte("[")}, host, &Ast{K: "text", Text: []byte("]")})
+			if g.budget < nh+3 {
+				g.budget = nh + 3
+			}
+			g.tag("scenario:include-reads-element-by-host-counter")
 		}
 	}
 	if prof.Includes && rng.Chance(12) {
